@@ -294,6 +294,30 @@ def run(ctx):
     rule_writers_closed(ctx, facts)
     from .c07 import rule_no_self_termination
     rule_no_self_termination(ctx, facts, "C02-R8")
+    # "however it ends (.. SIGINT / SIGTERM stop request ..)": a stop request is only a stop request if the signal is routed
+    # to the flag; otherwise the default action kills the run between a rename and the lock write (C18-R1's rows)
+    from . import c18 as _c18
+
+    class _As:
+        def __init__(s, c):
+            s.c = c
+            s.bin, s.lib, s.grammar, s.extra, s.tier, s.seed, s.prop = c.bin, c.lib, c.grammar, c.extra, c.tier, c.seed, c.prop
+
+        def check(s, cond, rule, key, what, where="", detail=None):
+            return s.c.check(cond, "C02-R10/" + rule, key, what, where, detail)
+
+        def bad(s, rule, key, msg, where="", detail=None):
+            s.c.bad("C02-R10/" + rule, key, msg, where, detail)
+
+        def ok(s, *a, **k):
+            pass
+
+        def assume(s, *a):
+            pass
+
+        def note(s, *a):
+            pass
+    _c18.rule_signal_set(_As(ctx), facts)
     # a panic in the insertion pass ends the run between the renames and the lock write: the panic-site
     # audit of C17-R1 is a premise here as well (only failures are reported under this name)
     from . import c17
